@@ -1,114 +1,23 @@
 /* C13 harness: drives mptcore/queue/*.c on exact-size heap storage (ASan sees
  * every access outside it).  Case line:
  *   <id> <max> <off> <contents-hex> <op> <args> ...
- * Token per operation: <out>|<contents-hex>|<max>  (see ml/c13_driver.ml). */
+ * Token per operation: <out>|<contents-hex>|<max>  (see ml/c13_driver.ml).
+ * The operations themselves are in harness/c13_ops.h (shared with the C++
+ * harness c13_cxx.cpp, which runs the cases that use the mpt++ classes). */
 #include "common.h"
-#include <errno.h>
 #include "queue.h"
+#include "c13_ops.h"
 
 static MPT_STRUCT(queue) q;
 
-static void dump_state(void)
-{
-	uint8_t *tmp = malloc(q.len ? q.len : 1);
-	size_t i;
-	/* independent read-out of the ring (does not use the library) */
-	for (i = 0; i < q.len; i++) tmp[i] = ((uint8_t *) q.base)[(q.off + i) % q.max];
-	vh_add("|");
-	vh_hex(tmp, q.len);
-	vh_add("|%zu", q.max);
-	free(tmp);
-}
-static int find_key;
-static int find_cmp(const void *elem, void *arg)
-{
-	(void) arg;
-	return *((const uint8_t *) elem) == find_key ? 0 : 1;
-}
 static void run_case(int ntok, char **tok)
 {
-	size_t clen, i;
-	uint8_t *c;
 	int t = 4;
-	q.max = vh_int(tok[1]);
-	q.off = vh_int(tok[2]);
-	c = vh_unhex(tok[3], &clen);
-	q.base = malloc(q.max);
-	memset(q.base, 0xee, q.max);
-	q.len = clen;
-	for (i = 0; i < clen; i++) ((uint8_t *) q.base)[(q.off + i) % q.max] = c[i];
-	free(c);
+	c13_init(&q, tok);
 	while (t < ntok) {
 		const char *op = tok[t++];
-		if (!strcmp(op, "push") || !strcmp(op, "unshift")) {
-			size_t n; uint8_t *d = vh_unhex(tok[t++], &n);
-			int r = op[0] == 'p' ? mpt_qpush(&q, n, d) : mpt_qunshift(&q, n, d);
-			vh_tok(r < 0 ? "R" : "D");
-			free(d);
-		}
-		else if (!strcmp(op, "pop") || !strcmp(op, "shift")) {
-			size_t n = vh_int(tok[t++]);
-			int hd = vh_int(tok[t++]);
-			uint8_t *d = hd ? malloc(n ? n : 1) : 0;
-			void *r = op[0] == 'p' ? mpt_qpop(&q, n, d) : mpt_qshift(&q, n, d);
-			if (!r) vh_tok("R");
-			else { vh_tok("B:"); vh_hex(r, n); }
-			free(d);
-		}
-		else if (!strcmp(op, "crop")) {
-			size_t p = vh_int(tok[t++]), n = vh_int(tok[t++]);
-			vh_tok(mpt_queue_crop(&q, p, n) < 0 ? "R" : "D");
-		}
-		else if (!strcmp(op, "get")) {
-			size_t p = vh_int(tok[t++]), n = vh_int(tok[t++]);
-			uint8_t *d = malloc(n ? n : 1);
-			if (mpt_queue_get(&q, p, n, d) < 0) vh_tok("R");
-			else { vh_tok("B:"); vh_hex(d, n); }
-			free(d);
-		}
-		else if (!strcmp(op, "set")) {
-			size_t p = vh_int(tok[t++]), n; uint8_t *d = vh_unhex(tok[t++], &n);
-			vh_tok(mpt_queue_set(&q, p, n, d) < 0 ? "R" : "D");
-			free(d);
-		}
-		else if (!strcmp(op, "setz")) {
-			size_t p = vh_int(tok[t++]), n = vh_int(tok[t++]);
-			vh_tok(mpt_queue_set(&q, p, n, 0) < 0 ? "R" : "D");
-		}
-		else if (!strcmp(op, "align")) {
-			mpt_queue_align(&q, vh_int(tok[t++]));
-			vh_tok("D");
-		}
-		else if (!strcmp(op, "resize")) {
-			size_t n = vh_int(tok[t++]);
-			void *r = mpt_queue_resize(&q, n);
-			vh_tok((n && !r) ? "R" : "D");
-		}
-		else if (!strcmp(op, "prepare")) {
-			size_t n = vh_int(tok[t++]);
-			size_t r = mpt_queue_prepare(&q, n);
-			vh_tok((n && !r) ? "R" : "D");
-		}
-		else if (!strcmp(op, "find")) {
-			size_t e = vh_int(tok[t++]);
-			uint8_t *r;
-			find_key = vh_int(tok[t++]);
-			errno = 0;
-			r = mpt_queue_find(&q, e, find_cmp, 0);
-			if (!r) vh_tok(errno ? "R" : "P:-");
-			else {
-				uint8_t *b = q.base;
-				size_t k = (r >= b + q.off) ? (size_t) (r - (b + q.off)) : (size_t) (r - b) + (q.max - q.off);
-				vh_tok("P:%zu", k);
-			}
-		}
-		else if (!strcmp(op, "string")) {
-			char *s = mpt_queue_string(&q);
-			if (!s) vh_tok("R");
-			else { vh_tok("B:"); vh_hex(s, q.len + 1); }
-		}
-		else { vh_tok("?%s", op); break; }
-		dump_state();
+		if (!c13_c_op(&q, op, tok, &t)) { vh_tok("?%s", op); break; }
+		c13_dump(&q);
 	}
 	mpt_queue_resize(&q, 0);
 }
